@@ -8,7 +8,7 @@ from vf import meta as vmeta, sandbox, target
 from vf.engine import Outcome, Violation
 from vf.gen import trees
 from vf.props import common
-from vf.ref import metafile as refmeta
+from vf.ref import bencode as refbencode, metafile as refmeta
 
 ID = "C18"
 LEVEL = "exploration"
@@ -49,6 +49,7 @@ def strategy(tier):
             c["version"] = draw(st.sampled_from(["1", "2", "3"]))
         if cmd == "rename":
             c["occupied"] = draw(st.booleans())
+            c["occupant"] = draw(st.sampled_from(["junk", "identical-copy", "same-info-other-trackers"]))
             c["mf_name"] = draw(st.sampled_from(["m.torrent", "weird name.torrent", "x"]))
         if cmd in ("magnet", "m"):
             c["mv"] = draw(st.sampled_from(["0", "1", "2", "3"]))
@@ -104,9 +105,23 @@ def run_case(case):
             classes.append("damaged-payload")
         target_new = os.path.join(box, name + ".torrent")
         if case["cmd"] == "rename" and case["occupied"]:
+            kind = case.get("occupant", "junk")
+            if kind == "junk":
+                data = b"occupant"
+            else:
+                with open(mf, "rb") as fd:
+                    data = fd.read()
+                if kind == "same-info-other-trackers":
+                    # same info dictionary, different outer dictionary (another tracker): still somebody else's file
+                    node = vmeta.Meta(data)
+                    top = dict(node.top)
+                    top[b"announce"] = b"http://other.example/announce"
+                    top[b"comment"] = b"occupant"
+                    data = refbencode.encode(top)
             with open(target_new, "wb") as fd:
-                fd.write(b"occupant")
+                fd.write(data)
             classes.append("rename-occupied")
+            classes.append("occupant-" + kind)
         with open(mf, "rb") as fd:
             mf_bytes = fd.read()
         before = sandbox.snapshot(box)
